@@ -1,23 +1,97 @@
 /-
-C10 on facts regenerated from pass/pass.go and pass/cleanup.go.
+C10 on facts regenerated from pass/pass.go (pass list of `Compile`, evaluated)
+and measured on the real `pass.PruneSelfMoves` (which `OPC r, r` it deletes).
+
+Only what the models and the property need is stated — relative order of the
+passes that matter, and an upper bound on the self-move opcodes — so that
+appending a pass, wrapping passes differently, or pruning FEWER opcodes does not
+break these theorems.
 -/
 import AvoVerif.Props.C10
 import AvoVerif.Gen.PassFacts
+import AvoVerif.Gen.BranchOps
 namespace Avo.Cleanup
 
-/-- The pass pipeline is the one the models assume: jumps and labels are pruned
-before labels are bound and the CFG is built; self-moves are pruned after
-binding and verification; liveness sees zero-extended 32-bit outputs. -/
-theorem compile_order : Avo.Gen.compileOrder =
-    ["InstructionPass(VerifyMemOperands)", "FunctionPass(PruneJumpToFollowingLabel)", "FunctionPass(PruneDanglingLabels)",
-     "FunctionPass(LabelTarget)", "FunctionPass(CFG)", "InstructionPass(ZeroExtend32BitOutputs)",
-     "FunctionPass(Liveness)", "FunctionPass(AllocateRegisters)", "FunctionPass(BindRegisters)",
-     "FunctionPass(VerifyAllocation)", "FunctionPass(EnsureBasePointerCalleeSaved)",
-     "Func(IncludeTextFlagHeader)", "FunctionPass(PruneSelfMoves)", "FunctionPass(RequiredISAExtensions)"] := by
-  decide
+def hasSub (pat : List Char) : List Char → Bool
+  | [] => pat.isEmpty
+  | c :: cs => pat.isPrefixOf (c :: cs) || hasSub pat cs
 
-/-- The opcodes PruneSelfMoves considers are exactly those of the model's
-`isSelfMove` (no MOVL: a 32-bit self-move clears the upper half). -/
-theorem selfmove_opcodes : Avo.Gen.selfMoveOpcodes = ["MOVB", "MOVW", "MOVQ"] := by decide
+/-- Positions in `Compile` of the passes whose rendering mentions the function `name`
+(`FunctionPass(PruneSelfMoves)`, however it is wrapped). -/
+def passIdx (name : String) : List Nat :=
+  (List.range Avo.Gen.compileOrder.length).filter (fun k =>
+    hasSub (name.toList ++ [')']) ((Avo.Gen.compileOrder.getD k "").toList))
+
+/-- `a` occurs exactly once, `b` exactly once, and `a` runs before `b`. -/
+def runsBefore (a b : String) : Bool :=
+  match passIdx a, passIdx b with
+  | [i], [j] => i < j
+  | _, _ => false
+
+/-- **The pass pipeline is the one the models need** (relative order only, and
+only what correctness depends on): jumps and labels are pruned before labels are
+bound and the CFG is built (neither pass repairs a CFG that already exists: a
+stale edge of a deleted jump would corrupt liveness); labels are bound before the
+CFG, the CFG is built before liveness, liveness before allocation, allocation
+before binding; self-moves are pruned after allocation (that pass clears the CFG
+which liveness and allocation read). Which of the two label passes runs first,
+and whether self-moves go before or after binding/verification, is not pinned. -/
+theorem compile_order :
+    runsBefore "PruneJumpToFollowingLabel" "LabelTarget" = true ∧
+    runsBefore "PruneDanglingLabels" "LabelTarget" = true ∧
+    runsBefore "LabelTarget" "CFG" = true ∧
+    runsBefore "CFG" "Liveness" = true ∧
+    runsBefore "Liveness" "AllocateRegisters" = true ∧
+    runsBefore "AllocateRegisters" "BindRegisters" = true ∧
+    runsBefore "AllocateRegisters" "PruneSelfMoves" = true := by
+  decide +kernel
+
+/-- Of the two-operand general-purpose-register opcodes, `PruneSelfMoves` deletes
+`OPC r, r` at most for `MOVB`, `MOVW`, `MOVQ` — the opcodes whose self-move the
+model's `execMov` proves to be the identity — in particular not for `MOVL`
+(a 32-bit self-move clears the upper half). -/
+theorem selfmove_opcodes :
+    Avo.Gen.selfMoveOpcodes.all (fun o => o == "MOVB" || o == "MOVW" || o == "MOVQ") = true := by
+  decide +kernel
+
+example : passIdx "PruneSelfMoves" ≠ [] := by decide +kernel
+
+/-! ## `hcf` from the form table: a self-move is neither a branch nor a return -/
+
+/-- The control-flow feature word of an instruction as the verif hook exports it
+(bit0 terminal, bit1 branch, bit2 conditional). -/
+def featureWord (cf : Avo.Func.Instr) : Nat :=
+  (if cf.isTerminal then 1 else 0) + (if cf.isBranch then 2 else 0) + (if cf.isCond then 4 else 0)
+
+/-- The instruction carries the control-flow flags that the regenerated form
+table lists for its opcode (what `x86.build` copies from the matched form). -/
+def TableFlags (i : XInstr) : Prop :=
+  ∃ r ∈ Avo.Gen.branchOps, r.1 = i.opcode ∧ featureWord i.cf ∈ r.2.1
+
+theorem mov_rows_plain :
+    Avo.Gen.branchOps.all (fun r => !(r.1 == "MOVB" || r.1 == "MOVW" || r.1 == "MOVQ") || r.2.1 == [0]) = true := by
+  decide +kernel
+
+/-- **`hcf` discharged.** An instruction that `PruneSelfMoves` deletes and whose
+flags are those of the form table is neither a return nor a branch: every form of
+`MOVB`, `MOVW`, `MOVQ` has the feature word 0 in the regenerated table. -/
+theorem selfMove_not_cf (i : XInstr) (hs : isSelfMove i = true) (ht : TableFlags i) :
+    i.cf.isTerminal = false ∧ i.cf.isBranch = false := by
+  obtain ⟨r, hr, hop, hw⟩ := ht
+  have hrow := (List.all_eq_true.mp mov_rows_plain) r hr
+  have hopc : (r.1 == "MOVB" || r.1 == "MOVW" || r.1 == "MOVQ") = true := by
+    unfold isSelfMove at hs
+    simp only [Bool.and_eq_true] at hs
+    rw [hop]; exact hs.1
+  simp only [hopc, Bool.not_true, Bool.false_or, beq_iff_eq] at hrow
+  rw [hrow] at hw
+  have h0 : featureWord i.cf = 0 := by simpa using hw
+  unfold featureWord at h0
+  cases h1 : i.cf.isTerminal <;> cases h2 : i.cf.isBranch <;> cases h3 : i.cf.isCond <;> simp_all
+
+/-- Non-vacuity: `MOVQ RAX, RAX` with the table's flags. -/
+example : TableFlags ⟨0, ⟨false, false, false, none⟩, "MOVQ", [.reg ⟨256, 15⟩, .reg ⟨256, 15⟩]⟩ := by
+  refine ⟨("MOVQ", [0], false), ?_, rfl, by simp [featureWord]⟩
+  decide +kernel
 
 end Avo.Cleanup
